@@ -625,11 +625,11 @@ def has_fn(e, f):
 def program_histories(ctx):
     rng = ctx.rng
     d = Drv(ctx, SCAL, ARRS, FNPROG)
-    nprog = ctx.pick(10, 120)
+    nprog = ctx.pick(16, 120)
     ngoto = 0
     for h in range(nprog):
         r = rng.random()
-        free0 = rng.choice([60, 100, 200, 400]) if r < 0.5 else rng.choice([1000, 4000]) if r < 0.8 else None
+        free0 = rng.choice([60, 100, 200, 400]) if r < 0.7 else rng.choice([1000, 4000]) if r < 0.9 else None
         g = ProgGen(rng, d, roomy=free0 is None or free0 >= 1000)
         acts = []
         for _ in range(rng.randint(30, ctx.pick(90, 150))):
